@@ -304,3 +304,21 @@ func PublicWithX(t string, x int64) *Key {
 	}
 	return &Key{Type: t, Index: int(-1000 - x), EC: &ecdsa.PrivateKey{PublicKey: ecdsa.PublicKey{Curve: c, X: bx, Y: y}}}
 }
+
+// Secp256k1WithYSquaredOne returns the six points of secp256k1 with Y = 1 or Y = P-1 (X a cube root of -6; no private part,
+// Index -2000-n): the points for which x^3 + 7 reaches the field prime before it is reduced.
+func Secp256k1WithYSquaredOne() []*Key {
+	c := Curve("secp256k1")
+	p := c.Params().P
+	var out []*Key
+	for _, xh := range []string{"1fe1e5ef3fceb5c135ab7741333ce5a6e80d68167653f6b2b24bcbcfaaaff507", "cbb0deab125754f1fdb2038b0434ed9cb3fb53ab735391129994a535d925f673", "146d3b65add9f54ccca28533c88e2cbc63f7443e1658783ab41f8ef97c2a10b5"} {
+		x, _ := new(big.Int).SetString(xh, 16)
+		for _, y := range []*big.Int{big.NewInt(1), new(big.Int).Sub(p, big.NewInt(1))} {
+			if !c.IsOnCurve(x, y) {
+				panic("keys: table of secp256k1 points with Y = +-1 is wrong")
+			}
+			out = append(out, &Key{Type: "secp256k1", Index: -2000 - len(out), EC: &ecdsa.PrivateKey{PublicKey: ecdsa.PublicKey{Curve: c, X: x, Y: y}}})
+		}
+	}
+	return out
+}
